@@ -57,8 +57,17 @@ def ext_attr(I, modname, name):
         return builtin_class("enum.IntEnum")
     if q in ("collections.namedtuple",):
         return VBuiltin(q)
-    if modname in ("asyncio", "datetime", "xml.etree", "Crypto", "Crypto.Util", "Crypto.Cipher", "urllib", "xml") and name in ("ElementTree", "Util", "Cipher", "Random", "Padding", "strxor", "AES", "parse"):
+    if modname in ("asyncio", "datetime", "xml.etree", "Crypto", "Crypto.Util", "Crypto.Cipher", "urllib", "xml") and name in ("ElementTree", "Util", "Cipher", "Random", "Padding", "AES", "parse"):
         return ExtModule(q)
+    if q == "datetime.datetime":
+        return ExtModule(q)
+    if q in ("datetime.timezone", ):
+        return ExtModule(q)
+    if q == "datetime.timezone.utc":
+        return NONE
+    from . import libmodels
+    if q in libmodels._CONSTS:
+        return mkint(libmodels._CONSTS[q])
     return VBuiltin(q)
 
 
@@ -88,13 +97,62 @@ def vkey(I, v):
     raise Unsupported(f"opaque function argument {v!r}")
 
 
+def _shape(v):
+    if isinstance(v, VBytes):
+        return ("B",) + tuple(("L", len(s.bs)) if isinstance(s, Lit) else ("V", s.base.get_id()) for s in v.segs)
+    return ("S", type(v).__name__)
+
+
+def _terms(v):
+    """z3 terms (or ints) that determine the value, in a fixed order"""
+    out = []
+    if isinstance(v, VBytes):
+        for s in v.segs:
+            if isinstance(s, Lit):
+                out.extend(s.bs)
+            else:
+                out.extend([s.off, s.n])
+    return out
+
+
+def _same_args(I, a1, a2):
+    for x, y in zip(a1, a2):
+        if not isinstance(x, VBytes):
+            if vkey(I, x) != vkey(I, y):
+                return False
+            continue
+        for p, q in zip(_terms(x), _terms(y)):
+            if isinstance(p, int) and isinstance(q, int):
+                if p != q:
+                    return False
+                continue
+            pt = p if not isinstance(p, int) else (z3.BitVecVal(p, 8) if z3.is_bv(q) else z3.IntVal(p))
+            qt = q if not isinstance(q, int) else (z3.BitVecVal(q, 8) if z3.is_bv(p) else z3.IntVal(q))
+            if pt.get_id() == qt.get_id():
+                continue
+            if not I.path.known(pt == qt):
+                return False
+    return True
+
+
 def opaque_bytes(I, name, args, length, kind="bytes", origin=None):
-    """deterministic uninterpreted function returning a byte string of the given length"""
+    """deterministic uninterpreted function returning a byte string of the given length.
+
+    Results are memoised on the structure of the arguments; two argument lists of the same shape whose
+    terms are provably equal under the path condition share the result (congruence)."""
     key = ("ob", name) + tuple(vkey(I, a) for a in args)
     m = I.path.memo
     if key not in m:
-        base = z3.Const(fresh(f"{name}"), ARR)
-        m[key] = (base, [a for a in args])      # keep args alive (ids)
+        shape = ("obs", name) + tuple(_shape(a) for a in args)
+        found = None
+        for (base, a2) in m.get(shape, []):
+            if _same_args(I, args, a2):
+                found = base
+                break
+        if found is None:
+            found = z3.Const(fresh(f"{name}"), ARR)
+            m.setdefault(shape, []).append((found, list(args)))
+        m[key] = (found, [a for a in args])      # keep args alive (ids)
     base = m[key][0]
     return VBytes([View(base, 0, length, origin=origin)], kind)
 
@@ -678,6 +736,7 @@ def int_to_bytes(I, v: VInt, n, order):
     else:
         x = z3.Int2BV(v.as_int(), W)
     bs = [z3.simplify(z3.Extract(8 * q + 7, 8 * q, x)) for q in range(n)]     # little endian
+    I.path.memo[("tobytes", "little") + tuple(b.get_id() for b in bs)] = (VInt(c=v.c, b=v.b, i=v.i, lo=max(v.lo, 0) if v.lo is not None else 0, hi=min(v.hi, lim - 1) if v.hi is not None else lim - 1), bs)
     if order == "big":
         bs.reverse()
     return VBytes([Lit(bs)])
@@ -712,6 +771,10 @@ def int_from_bytes(I, fv, args, kw):
     bs = [vb.at(k) for k in range(n)]
     if order == "big":
         bs.reverse()
+    if n and all(not isinstance(b, int) for b in bs):
+        hit = I.path.memo.get(("tobytes", "little") + tuple(z3.simplify(b).get_id() for b in bs))
+        if hit is not None:
+            return hit[0]          # from_bytes(to_bytes(x)) = x  (to_bytes checked the range)
     acc = mkint(0)
     for q, b in enumerate(bs):
         term = byte_val(b)
@@ -818,7 +881,8 @@ def binop_ref(I, o, a, b):
             return I.new_list(oa.items + ob.items)
         if oa.kind in ("set", "symset") and ob.kind in ("set", "symset"):
             return set_binop(I, o, a, oa, b, ob)
-    raise Unsupported(f"binop {o} on containers")
+    from . import libmodels
+    return libmodels.ext_binop(I, o, a, b)
 
 
 def order_ref(I, o, a, b):
